@@ -1,0 +1,10 @@
+//go:build verif
+
+// Machine-checked contracts for package token (read by /verif/govc; comments only).
+
+package token
+
+// C01: every identifier gets a token type (the keyword table has no empty entry).
+//@ func LookupIdent [C01]
+//@   pure
+//@   ensures [typed] result != ""
